@@ -42,6 +42,62 @@ def sib(p, res):
     return n
 
 
+def sign3(p, res):
+    """Galois-group arithmetic lives in (Z/2NZ)*: the helpers that compute Galois elements and their inverses reduce, bound and iterate with the cyclotomic order 2N only.
+    A ring degree obtained with `n()` may enter only as `2 * n()`; a bound or mask taken from N itself is one bit short exactly for some degrees."""
+    from .cfg import Flow
+    n = 0
+    for f in sorted(p.lib_fns(), key=lambda x: x.uid):
+        if f.kind == "Closure" or not f.blocks or not f.uid.startswith("poulpy_hal::layouts::module") or "galois" not in f.name:
+            continue
+        n += 1
+        flow = Flow(f)
+        bad = None
+        for bi, t in f.calls():
+            d = f.callee_def(t) or {}
+            if d.get("n") != "n" or not t.get("d"):
+                continue
+            # every use of the result must be a multiplication by two (or a shift by one)
+            dst = t["d"][0]
+            carriers = {dst}
+            doubled = False
+            plain = False
+            changed = True
+            while changed:
+                changed = False
+                for blk in f.blocks:
+                    for st in blk["s"]:
+                        if st[0] != "A":
+                            continue
+                        rd = [o[1][0] for o in st[2].get("o", []) if o[0] in ("c", "m")]
+                        if not (set(rd) & carriers):
+                            continue
+                        if st[2]["k"] in ("Use", "Cast") and len(st[1]) == 1:
+                            if st[1][0] not in carriers:
+                                carriers.add(st[1][0])
+                                changed = True
+                        elif st[2]["k"] == "Bin" and st[2]["op"].replace("WithOverflow", "") in ("Mul", "Shl"):
+                            other = [o for o in st[2]["o"] if not (o[0] in ("c", "m") and o[1][0] in carriers)]
+                            if other and other[0][0] == "k" and other[0][1].get("v") in (2, 1):
+                                doubled = True
+                            else:
+                                plain = True
+                        else:
+                            plain = True
+                    tt = blk["t"]
+                    if tt and tt["k"] == "Call" and any(a[0] in ("c", "m") and a[1][0] in carriers for a in tt["a"]):
+                        plain = True
+            if plain or not doubled:
+                bad = t["l"]
+        if bad is not None:
+            res.bad("SIGN-3", f.pretty, "degree-instead-of-order",
+                    "%s computes in (Z/2NZ)* but uses the ring degree `n()` itself (not `2 * n()` / `cyclotomic_order()`): a mask, bound or iteration count taken from N is one bit short" % f.pretty,
+                    site=f.where(bad))
+        else:
+            res.ok("SIGN-3", {"fn": f.pretty})
+    return n
+
+
 def run(res, tier):
     res.level = "other"
     res.explanation = ("Only the size rule of C09 is decided (extra result limbs zero, extra operand limbs ignored, exact column): WR-1 limb coverage and WR-2 column identity on the "
@@ -74,4 +130,7 @@ def run(res, tier):
         res.floor("SIGN-2", "negacyclic split kernels", n2n, 1)
         nsk = sign.check_rotation_skips(p, res, "SIGN-2", ("poulpy_cpu_ref::reference", "poulpy_cpu_avx", "poulpy_core"))
         res.floor("SIGN-2", "functions handing a rotation exponent to a rotation kernel", nsk, 4)
+        res.rule("SIGN-3", "the Galois-element helpers of poulpy_hal::layouts::module use the ring degree only as 2 * n() / cyclotomic_order()")
+        n3 = sign3(p, res)
+        res.floor("SIGN-3", "Galois-element helpers", n3, 2)
         res.fn_count += n_ow + n2
